@@ -2,7 +2,7 @@
 //! client boundary, and runs every history-level monitor (C03..C10, C12, C14, C15) after every step.
 
 use crate::dec::{decode_as, json_as, parse_as};
-use crate::decmon::{authentic, check_node_id};
+use crate::decmon::{authentic, check_node_id, judge_input, JudgeOpts};
 use crate::keys::{secret_from, KeyKind};
 use crate::model::*;
 use crate::obs::{observe, observe_core, sweep, Obs};
@@ -164,6 +164,14 @@ pub fn apply_op_alt<K: EnrKey>(e: &mut Enr<K>, op: &Op, signer: &K, nonsigner: &
 pub fn apply_build<K: EnrKey>(entries: &[BEntry], key: &K) -> Result<Enr<K>, enr::Error> {
     let mut b = Enr::<K>::builder();
     for e in entries {
+        apply_entry(&mut b, e);
+    }
+    b.build(key)
+}
+
+/// one builder call
+pub fn apply_entry<K: EnrKey>(b: &mut enr::Builder<K>, e: &BEntry) {
+    {
         match e {
             BEntry::Seq(n) => {
                 b.seq(*n);
@@ -232,7 +240,6 @@ pub fn apply_build<K: EnrKey>(entries: &[BEntry], key: &K) -> Result<Enr<K>, enr
             }
         }
     }
-    b.build(key)
 }
 
 fn ret_matches(pred: &Ret, got: &RetObs) -> bool {
@@ -446,6 +453,11 @@ pub fn check_state<KK: KeyKind>(
             json!({"t": "state", "kt": KK::KT.name(), "site": site, "enc": hex(&o.enc), "seq": o.seq.to_string(), "node_id": hex(&o.node_id),
                    "pubkey": hex(&o.pubkey), "sig": hex(&o.sig), "text": o.text, "verify": o.verify})
         });
+    }
+    if ctx.judge_lib_made {
+        // what the library itself produced, held against RefDecode / RefSig under every key type like any other input
+        judge_input(ctx, "lib-made", &o.enc, JudgeOpts { text: false });
+        ctx.count("lib-made-records-judged");
     }
     // ---- C05 always-signed invariant
     if let Err(why) = authentic(o) {
@@ -825,6 +837,16 @@ fn run_history_inner<KK: KeyKind>(ctx: &mut Ctx, h: &History, opts: &RunOpts) ->
                                 if r.is_err() && enc != cur.enc {
                                     ctx.violate("C06", "record-changed-by-failed-update", &format!("{}[cross-scheme-signer]/encoding", step.op.name()), || "a failed cross-scheme update changed the record".into(), &replay);
                                 }
+                                // the node id is not part of the encoding: look at it separately, and hold it against
+                                // the key the record carries whatever the call returned
+                                if let Ok(post) = observe(&enr) {
+                                    if r.is_err() && (post.node_id != cur.node_id || post.seq != cur.seq || post.sig != cur.sig) {
+                                        ctx.violate("C06", "record-changed-by-failed-update", &format!("{}[cross-scheme-signer]/node-id", step.op.name()), || {
+                                            format!("{ktn}: a failed cross-scheme {} left node id {} (was {})", step.op.name(), hex(&post.node_id), hex(&cur.node_id))
+                                        }, &replay);
+                                    }
+                                    check_node_id(ctx, &post, &format!("{}[cross-scheme-signer]", step.op.name()), &replay);
+                                }
                             }
                             Err(p) => ctx.violate("C03", "panic", &format!("encode/{}", panic_sig(&p)), || p.clone(), &replay),
                         }
@@ -944,6 +966,8 @@ fn run_history_inner<KK: KeyKind>(ctx: &mut Ctx, h: &History, opts: &RunOpts) ->
                     ctx.violate("C06", "record-changed-by-failed-update", &format!("{opn}/{}/{what}", if causes.is_empty() { kind } else { &causes }), || {
                         format!("{ktn}: step {i} {opn} returned Err({kind}) but {what} changed (seq {}→{}, verify {})", pre.seq, post.seq, post.verify)
                     }, &replay);
+                    // ---- C10: so does "the node id is the hash of the key the record carries"
+                    check_node_id(ctx, &post, &format!("{opn}[after-failed-update]"), &replay);
                     // ---- C05: the always-signed invariant ranges over every state of the caller's record, also the
                     // one a failing update leaves behind (on a correct library that is the checked pre-state)
                     if let Err(why) = authentic(&post) {
